@@ -326,32 +326,49 @@ def _copy_of(body, local, saved):
 
 
 def range_rule(ck, F, P):
-    """Every Range<usize> describing source text: an end computed as start + literal must be justified by an
-    ASCII test on the byte at start (shared with C05)."""
-    sr = get_fn(ck, F, "TokenizationError::string_range")
-    if sr is None:
-        return
-    for b, i, pl, rv, sp in aggregates(sr, "core::ops::range::Range"):
-        st = strip_expr(sr.expr(rv["ops"][0]))
-        en = strip_expr(sr.expr(rv["ops"][1]))
-        # which variant arm are we in?
-        variant = None
-        for bb in sorted(sr.reachable()):
-            info = sr.switch_info(bb)
-            if info and info[3]:
-                for v, n in info[3].items():
-                    t = info[1].get(v, info[2])
-                    if sr.dominates(t, b) and t != info[2] or (t == info[2] and sr.dominates(t, b) and v not in info[1]):
-                        variant = n
-        lit = None
-        if en[0] == "place" and en[1][0] == "binop" and en[1][1] == "AddWithOverflow":
-            c = strip_expr(en[1][3])
-            if c[0] == "const":
-                lit = c[1].get("int")
-        if lit is not None:
-            ck.bad("%s:RANGE:syntax_error::TokenizationError::string_range:%s" % (P, variant), "range construction",
-                   "the range of a %s error ends at start + %d: the offending character may be multi-byte (`10 é` gives "
-                   "3..4, which splits a 2-byte char), so the reported range is not on a char boundary" % (variant, lit), sp)
-        else:
-            ck.ok("%s:RANGE:string_range:%s" % (P, variant), "range construction",
-                  "range ends at a cursor value / the line length (%s)" % show(en), "", sp)
+    """Every Range<usize> that describes source text (tokenization-error ranges and the ranges handed out by the
+    source map): an end computed as `something + literal` must be justified by an ASCII test on the byte there,
+    otherwise it may split a character or leave the line (shared with C05)."""
+    fns = ("TokenizationError::string_range", "SourceFileMap::map_location_to_source", "SourceFileMap::map_to_source")
+    for fn in fns:
+        sr = get_fn(ck, F, fn)
+        if sr is None:
+            continue
+        k = 0
+        for b, i, pl, rv, sp in aggregates(sr, "core::ops::range::Range"):
+            k += 1
+            en = strip_expr(sr.expr(rv["ops"][1]))
+            st = strip_expr(sr.expr(rv["ops"][0]))
+            # which variant arm are we in? (only meaningful for string_range)
+            variant = None
+            for bb in sorted(sr.reachable()):
+                info = sr.switch_info(bb)
+                if info and info[3] and len(info[3]) == 3:
+                    for v, n in info[3].items():
+                        t = info[1].get(v, info[2])
+                        if sr.dominates(t, b) and (v in info[1] or t == info[2]):
+                            variant = n
+            lit = None
+            for e in (en, st):
+                if e[0] == "place" and e[1][0] == "binop" and e[1][1] in ("AddWithOverflow", "SubWithOverflow"):
+                    c = strip_expr(e[1][3])
+                    if c[0] == "const" and c[1].get("int") is not None:
+                        lit = c[1]["int"]
+                if e[0] == "binop" and e[1] in ("Add", "Sub"):
+                    c = strip_expr(e[3])
+                    if c[0] == "const":
+                        lit = c[1].get("int")
+                if e[0] == "call" and e[1].split("::")[-1] in ("saturating_add", "wrapping_add", "checked_add", "saturating_sub"):
+                    lit = "call"
+            short = fn.split("::")[-1]
+            if lit is not None:
+                key = "%s:RANGE:syntax_error::TokenizationError::string_range:%s" % (P, variant) if short == "string_range" \
+                    else "%s:RANGE:%s#%d" % (P, short, k)
+                ck.bad(key, "range construction",
+                       "%s builds a source range whose bound is another bound +/- %s: the offending character may be multi-byte "
+                       "(`10 é` gives 3..4, which splits a 2-byte char) or the range may leave the line (an end-of-line error "
+                       "reported one past the last token)" % (fn, lit), sp)
+            else:
+                key = "%s:RANGE:string_range:%s" % (P, variant) if short == "string_range" else "%s:RANGE:%s#%d" % (P, short, k)
+                ck.ok(key, "range construction", "range bounds are cursor values / stored token ranges / the line length (%s)" % show(en)[:80],
+                      "", sp)
